@@ -580,6 +580,56 @@ def _traj(case, out):
     return n >= 2
 
 
+# sampling configurations of the grid / graph twin comparison: ordinary decimal steps (the sums of which fall just short
+# of / just beyond the multiples of the interval) and dyadic ones, the three policies
+SAMPLINGS = [
+    {"policy": "on_interval", "dt": 0.1, "interval": 1.0, "t_sample": [0, 3.05]},
+    {"policy": "on_interval", "dt": 1e-3, "interval": 0.01, "t_sample": [0, 0.0305]},
+    {"policy": "on_interval", "dt": 0.125, "interval": 0.5, "t_sample": [0, 2.05]},
+    {"policy": "on_interval", "dt": 0.3, "interval": 0.9, "t_sample": [0, 3.7]},
+    {"policy": "on_t_sample", "dt": 0.1, "interval": None, "t_sample": [0, 0.5, 1, 1.5, 2, 2.5, 3]},
+    {"policy": "on_t_sample", "dt": 0.3, "interval": None, "t_sample": [0, 0.3, 0.6, 0.9, 0.9, 1.2000000000000002]},
+    {"policy": "on_t_sample", "dt": 0.125, "interval": None, "t_sample": [0, 0.25, 0.5, 1.0]},
+    {"policy": "on_iteration", "dt": 0.1, "interval": None, "t_sample": [0, 1.05]},
+]
+
+
+def _trajsamp(case, out):
+    """Same Euler run on a grid and on grid_to_graph(grid) under one sampling configuration: the recorded times must be
+    the same list and the recorded states equal (the two native base classes have their own copy of the sampling code)."""
+    w, h, d = case["w"], case["h"], case["d"]
+    per = _per(case)
+    n = w * h * d
+    cfg = SAMPLINGS[case["cfg"]]
+    s1, s2 = _hetero_systems(case, case["variant"], chemostat=False)
+    res = []
+    for s in (s1, s2):
+        kw = {}
+        if cfg["interval"] is not None:
+            kw["sampling_interval"] = cfg["interval"]
+        sc = RDScript(s, t_sample=list(cfg["t_sample"]), time_step=cfg["dt"], sampling_policy=cfg["policy"], rng_seed=1, **kw)
+        tr, nit = eng.simulate("euler", sc, max_iter=400)
+        out.ops += 1
+        res.append(([float(x) for x in tr.data.convert(UnitsSystem()).value],
+                    [float(x) for x in tr.t.convert(UnitsSystem()).value], nit))
+    (a, ta, na), (b, tb, nb) = res
+    out.evals += len(a) + len(ta)
+    where = "%dx%dx%d periodic=%s variant=%d, %s dt=%g interval=%r t_sample=%r" % (
+        w, h, d, list(per), case["variant"], cfg["policy"], cfg["dt"], cfg["interval"], cfg["t_sample"])
+    if na != nb or ta != tb:
+        out.add(P + ":trajectory:sampling:%s:grid-and-graph-record-different-times" % cfg["policy"],
+                "grid run: %d iterations, times %r; graph run: %d iterations, times %r (%s)" % (na, ta[:12], nb, tb[:12], where))
+        return True
+    if len(ta) < 2:
+        out.count("sampling_runs_with_one_record")
+    scale = max([abs(x) for x in a] + [1e-300])
+    worst = max([abs(x - y) for x, y in zip(a, b)] + [0.0])
+    if len(a) != len(b) or not worst <= REL_TRAJ * scale:
+        out.add(P + ":trajectory:sampling:%s:grid-vs-graph" % cfg["policy"],
+                "recorded states differ by %.3e (> 1e-9 x %.6g) (%s)" % (worst, scale, where))
+    return True
+
+
 def _pygraph(case, out):
     w, h, d = case["w"], case["h"], case["d"]
     per = _per(case)
@@ -934,7 +984,7 @@ def _carriers(case, out):
 
 
 SUBS = {"geom": _geom, "pykin": _pykin, "engine": _engine, "graph": _graph, "traj": _traj, "pygraph": _pygraph,
-        "history": _history, "copy": _copy, "carriers": _carriers}
+        "history": _history, "copy": _copy, "carriers": _carriers, "trajsamp": _trajsamp}
 
 
 def _run_case(case):
@@ -990,6 +1040,12 @@ def _spaces(tier):
     bt = [{"w": w, "h": h, "d": d, "per": [int(b) for b in per], "sub": "traj", "variant": v, "chem": v}
           for (w, h, d) in bigs[:4] for per in ((0, 0, 0), (1, 1, 1), (1, 0, 1)) for v in (0, 1)]
     sp.append(("traj-big: grids %s x 3 boundary settings x 2 variants: 3 Euler steps grid vs graph" % ", ".join("%dx%dx%d" % t for t in bigs[:4]), bt, 2))
+    sgrids = [(1, 1, 1), (3, 1, 1), (3, 2, 1), (2, 2, 2), (1, 3, 4)]
+    ts = [{"w": w, "h": h, "d": d, "per": [int(b) for b in per], "sub": "trajsamp", "variant": v, "cfg": c}
+          for (w, h, d) in sgrids for per in ((0, 0, 0), (1, 0, 0), (1, 1, 1)) for v in (0, 1) for c in range(len(SAMPLINGS))]
+    sp.append(("traj-sampling: grids %s x 3 boundary settings x 2 variants x %d sampling configurations (3 policies, decimal "
+               "and dyadic steps): recorded times and states of the Euler run, grid vs graph"
+               % (", ".join("%dx%dx%d" % t for t in sgrids), len(SAMPLINGS)), ts, 4))
     sp.append(("graph: all grids {1..%d}^3 x 8 x %d volume/unit variants: grid_to_graph structure" % (N, len(VARIANTS)),
                [dict(g, sub="graph", variant=v) for g in grids for v in range(len(VARIANTS))], 16))
     sp.append(("traj: all grids {1..%d}^3 x 8 x 2 variants (plain; other units + chemostats): 3 Euler steps grid vs graph" % N,
@@ -1075,7 +1131,7 @@ def run(ctx):
         if isinstance(r, pool.Crash):
             i, lo, hi = job
             sub = _SPACES[i][1][lo]["sub"]
-            site = "engine" if sub in ("engine", "traj", "history", "copy") else "checker"
+            site = "engine" if sub in ("engine", "traj", "trajsamp", "history", "copy") else "checker"
             ctx.violation("%s:%s:%s:worker-%s" % (P, site, sub, r.kind), r.detail[-1500:],
                           {"job": list(job), "cases": _SPACES[i][1][lo:hi][:3]})
             continue
